@@ -23,10 +23,10 @@ RULE = ("QFT: Hypothesis-generated registers (0-5 distinct qubits in any order, 
         "first listed qubit as least significant bit, identity on the other qubits (1e-8, no phase freedom); non-trivial = register "
         "length >= 2. State initialisation: complex / real / sparse / basis / two-term normalised vectors on 1-5 qubits, both orders, "
         "return_phase and set_n_qubits on/off; oracle = reference simulation of the returned circuit times e^{i phase} equals the "
-        "vector (1e-8), uncomputing circuit maps the vector to |0..0> up to phase; non-trivial = >= 3 non-zero amplitudes or a "
-        "relative phase. Phase estimation: register m = 1-5, Hamiltonians with dyadic coefficients k/2^m (qubit-wise commuting "
+        "vector (2e-7), uncomputing circuit maps the vector to |0..0> up to phase; non-trivial = >= 3 non-zero amplitudes or a "
+        "relative phase; plus a sweep of all basis states on 1-3 qubits x order x return_phase x set_n_qubits (width honoured when set_n_qubits=True). Phase estimation: register m = 1-5, Hamiltonians with dyadic coefficients k/2^m (qubit-wise commuting "
         "families in random X/Y/Z bases with identity term, and XX/YY/ZZ on Bell states), time +-2 pi, Trotter orders 1/2, steps, "
-        "methods time/repeat, CircuitUnitary circuits V^-1 D V with dyadic PHASE/RZ/CPHASE/CRZ (control_method all/variational); "
+        "methods time/repeat, CircuitUnitary circuits V^-1 D V with dyadic PHASE/RZ/CPHASE/CRZ (control_method all/variational, unitary Circuit with or without a fixed n_qubits); "
         "eigenstates prepared by gates or StateVector.initializing_circuit; oracle = eigenphase computed from the reference "
         "matrices; QPE (cirq, n_shots=None) must return it exactly with winning probability >= 1-1e-9; iterative QPE (1-4 shots, "
         "pinned numpy seed) must return it in every shot. Non-trivial = phase with >= 2 non-zero bits. "
@@ -134,7 +134,7 @@ def qft_body(case):
     return len(qs) >= 2, labels
 
 
-@part("qft", quick=300, thorough=8000)
+@part("qft", quick=300, thorough=16000)
 def qft(ctx):
     ctx.search("qft", qft_cases(6 if ctx.tier == "quick" else 7), qft_body)
 
@@ -250,7 +250,7 @@ def sv_basis_cases():
     return out
 
 
-@part("statevector", quick=400, thorough=12000)
+@part("statevector", quick=400, thorough=24000)
 def statevector(ctx):
     ctx.sweep("statevector_basis", sv_basis_cases(), sv_body)
     ctx.search("statevector", sv_cases(5), sv_body)
@@ -303,8 +303,11 @@ def pe_cases(draw, iterative, max_m, max_state):
             dg.append({"n": nm, "t": [qs[0]], "c": [qs[1]] if nm[0] == "C" else None, "k": k})
         if not any(n - 1 in g["t"] + (g["c"] or []) for g in vg + dg):
             dg.append({"n": "PHASE", "t": [n - 1], "c": None, "k": draw(coef)})     # the circuit defines the width of the state register
+        cm = draw(st.sampled_from(["all", "variational"]))
+        for g in dg:      # "variational" controls only gates flagged variational: all phase gates must carry the flag; "all" must not need it
+            g["v"] = True if cm == "variational" else draw(st.booleans())
         case.update({"n": n, "V": vg, "D": dg, "bits": [draw(st.integers(0, 1)) for _ in range(n)],
-                     "control_method": draw(st.sampled_from(["all", "variational"])), "fixed_width": draw(st.integers(0, 3)) == 0})
+                     "control_method": cm, "fixed_width": draw(st.integers(0, 3)) == 0})
     if kind != "circuit":
         case.update({"tsign": draw(st.sampled_from([1, -1])), "order": draw(st.sampled_from([1, 2])), "steps": draw(st.integers(1, 2)),
                      "method": draw(st.sampled_from(["time", "repeat"]))})
@@ -351,12 +354,12 @@ def ham_terms(case):
     return terms
 
 
-def d_gate_recs(case, variational):
+def d_gate_recs(case):
     K = 2 ** case["m"]
     out = []
     for g in case["D"]:
         ang = (2 * pi if g["n"].endswith("PHASE") else 4 * pi) * g["k"] / K
-        out.append({"n": g["n"], "t": g["t"], "c": g["c"], "p": ang, "v": variational})
+        out.append({"n": g["n"], "t": g["t"], "c": g["c"], "p": ang, "v": bool(g.get("v", True))})
     return out
 
 
@@ -380,7 +383,7 @@ def pe_body_factory(ctx):
         labels = {kind, f"m={m}", f"n={n}"}
         # ---- expected eigenphase, from the reference matrices
         if kind == "circuit":
-            ug = case["V"] + d_gate_recs(case, True) + case["V"][::-1]
+            ug = case["V"] + d_gate_recs(case) + case["V"][::-1]
             U = R.unitary(ug, n)
             Uv = U @ v
             lam = np.vdot(v, Uv)
@@ -420,15 +423,17 @@ def pe_body_factory(ctx):
                 labels.add("unitary-circuit-with-fixed-n_qubits")
             opts["unitary_options"] = {"control_method": case["control_method"]}
             labels.add(f"control_method={case['control_method']}")
+            if not all(g.get("v", True) for g in case["D"]):
+                labels.add("non-variational-phase-gates")
         else:
             qop = QubitOperator()
             for w, c in terms.items():
                 qop.terms[w] = c
             opts["qubit_hamiltonian"] = qop
             opts["unitary_options"] = {"time": t, "trotter_order": case["order"], "n_trotter_steps": case["steps"], "n_steps_method": case["method"]}
-        def build(solver):
+        def guard(fn):
             try:
-                solver.build()
+                return fn()
             except ValueError as e:
                 if "Qubit index beyond expected maximal index" in str(e) and fixed_width_circuit(case):
                     raise Fail(f"CircuitUnitary.build_circuit fails for a unitary Circuit created with n_qubits={n}: {str(e).splitlines()[0]}",
@@ -438,7 +443,7 @@ def pe_body_factory(ctx):
         if case["solver"] == "qpe":
             opts["backend_options"] = {"target": "cirq"}
             s = QPESolver(opts)
-            build(s)
+            guard(s.build)
             val = s.simulate()
             pmax = max(s.qpe_freqs.values())
             if s.bitstring != bits_expected or abs(val - phi) > 1e-12:
@@ -450,9 +455,9 @@ def pe_body_factory(ctx):
             N = case["shots"]
             opts["backend_options"] = {"target": "cirq", "n_shots": N}
             s = IterativeQPESolver(opts)
-            build(s)
+            guard(s.build)
             ctx.np_seed(case)
-            val = s.simulate()
+            val = guard(s.simulate)
             if set(s.qpe_freqs) != {bits_expected} or abs(val - phi) > 1e-12:
                 raise Fail(f"iterative QPE ({N} shots) returned {val} with outcomes {s.qpe_freqs}, expected {phi} ({bits_expected}) in every shot",
                            sig=f"iqpe:value:{kind}", got=val, expected=phi)
@@ -465,13 +470,13 @@ def pe_body_factory(ctx):
     return pe_body
 
 
-@part("qpe", quick=72, thorough=1500)
+@part("qpe", quick=72, thorough=3500)
 def qpe(ctx):
     mm, ms = (4, 3) if ctx.tier == "quick" else (5, 4)
     ctx.search("qpe", pe_cases(False, mm, ms), pe_body_factory(ctx), exclusions={"circuit-unitary:fixed-width-circuit": fixed_width_circuit})
 
 
-@part("iqpe", quick=72, thorough=1500)
+@part("iqpe", quick=72, thorough=3500)
 def iqpe(ctx):
     mm, ms = (4, 3) if ctx.tier == "quick" else (5, 4)
     ctx.search("iqpe", pe_cases(True, mm, ms), pe_body_factory(ctx), exclusions={"circuit-unitary:fixed-width-circuit": fixed_width_circuit})
